@@ -460,6 +460,7 @@ theorem calculate_phased (size : Nat) (ws : Array α) (j2 j3 m2 m3 : Int) :
     calculate size ws j2 j3 m2 m3 = calculateP size ws j2 j3 m2 m3 := rfl
 
 theorem fst_getC (size : Nat) (a : Array α) (i : Int) : (getC size a i).1 = geti a i := rfl
+omit [Scalar α] in
 theorem fst_setC (size : Nat) (a : Array α) (i : Int) (v : α) : (setC size a i v).1 = seti a i v := rfl
 
 theorem fst_finishC (size : Nat) (j2 j3 m2 m3 jmin jmax : Int) (f : Array α) :
@@ -539,6 +540,7 @@ theorem oobIdx_false (size : Nat) (i : Int) (h0 : 0 ≤ i) (h1 : i < size) : oob
   unfold oobIdx; simp; omega
 
 theorem snd_getC (size : Nat) (a : Array α) (i : Int) : (getC size a i).2 = oobIdx size i := rfl
+omit [Scalar α] in
 theorem snd_setC (size : Nat) (a : Array α) (i : Int) (v : α) : (setC size a i v).2 = oobIdx size i := rfl
 
 theorem snd_loopN {β} (n : Nat) (g : Nat → Chk β → Chk β) (s : Chk β) (h0 : s.2 = false)
@@ -588,6 +590,7 @@ theorem snd_determineSignsC (size : Nat) (f : Array α) (lo hi j2 j3 m2 m3 : Int
 @[spec] theorem getC_spec (size : Nat) (a : Array α) (i : Int) :
     ⦃⌜0 ≤ i ∧ i < size⌝⦄ getC size a i ⦃⇓ _ => ⌜True⌝⦄ :=
   (safe_iff _ _).2 fun h => oobIdx_false _ _ h.1 h.2
+omit [Scalar α] in
 @[spec] theorem setC_spec (size : Nat) (a : Array α) (i : Int) (v : α) :
     ⦃⌜0 ≤ i ∧ i < size⌝⦄ setC size a i v ⦃⇓ _ => ⌜True⌝⦄ :=
   (safe_iff _ _).2 fun h => oobIdx_false _ _ h.1 h.2
@@ -692,7 +695,7 @@ theorem calculateChkP_spec (size : Nat) (ws : Array α) (j2 j3 m2 m3 : Int)
   all_goals first
     | omega
     | (have := range_mem ‹_ = _ ++ _ :: _›; omega)
-    | (simp_all <;> omega)
+    | (simp_all; omega)
     | (refine ⟨by omega, by omega, fun h0 => ?_⟩
        rcases hz h0 with ⟨a, b⟩ | ⟨a, b⟩
        · exact Or.inr ⟨by omega, a, b⟩
